@@ -127,15 +127,30 @@ class Proc:
                 if name is None:
                     rules = get_all_rules(None)
                     transforms = get_transforms(None)
+                    tag_only = merchant_utils.get_tag_only_rules(None)
                 else:
                     f = self.uni['files'][name]
                     p = self.path_for(f)
-                    with open(p, 'w', encoding='utf-8') as fh:     # same path, new content: a reload
-                        fh.write(f['text'])
-                    rules = get_all_rules(p)
-                    transforms = get_transforms(p)
+                    mode = f.get('mode', 'first_match')
+                    if f['text'] is None:                          # the file has been deleted
+                        if os.path.exists(p):
+                            os.remove(p)
+                    else:
+                        with open(p, 'w', encoding='utf-8') as fh:     # SAME path, new content: a rewrite + reload
+                            fh.write(f['text'])
+                    if o.get('order') == 'cli':
+                        # the order of `tally up` / explain / discover / diag: transforms (and tag-only rules) are
+                        # asked for BEFORE get_all_rules re-reads the file
+                        transforms = get_transforms(p, match_mode=mode)
+                        tag_only = merchant_utils.get_tag_only_rules(p, match_mode=mode)
+                        rules = get_all_rules(p, match_mode=mode)
+                    else:
+                        rules = get_all_rules(p, match_mode=mode)
+                        transforms = get_transforms(p, match_mode=mode)
+                        tag_only = merchant_utils.get_tag_only_rules(p, match_mode=mode)
                 self.rules, self.transforms = rules, transforms
-                res['out'] = {'rules': canon_rules(rules), 'transforms': jsonable(transforms)}
+                res['out'] = {'rules': canon_rules(rules), 'transforms': jsonable(transforms),
+                              'tag_only': [[r.name, r.match_expr, sorted(r.tags)] for r in tag_only]}
             except Exception as e:  # noqa
                 res['out'] = {'raise': type(e).__name__}
             after = {'engine': engine_snapshot(self.engine), 'data_sources': jsonable(self.ds)}
